@@ -579,8 +579,7 @@ where
 
         // assert rp_id is not part of the public suffix list and is a registerable domain.
         if decode_host(rp_id)
-            .as_ref()
-            .and_then(|s| self.tld_provider.effective_tld_plus_one(s).ok())
+            .and_then(|_| self.tld_provider.effective_tld_plus_one(rp_id).ok())
             .is_none()
         {
             return ControlFlow::Break(Err(WebauthnError::InvalidRpId));
@@ -623,8 +622,7 @@ where
         }
 
         if decode_host(effective_rp_id)
-            .as_ref()
-            .and_then(|s| self.tld_provider.effective_tld_plus_one(s).ok())
+            .and_then(|_| self.tld_provider.effective_tld_plus_one(effective_rp_id).ok())
             .is_none()
         {
             return Err(WebauthnError::InvalidRpId);
